@@ -136,3 +136,8 @@ def hexbytes(s):
         return bytes.fromhex(s)
     except ValueError:
         return b""
+
+
+def conforms(obj):
+    """the object's attributes have the types the sidecar declares for its class (checked by pyvc only)"""
+    return True
